@@ -700,4 +700,110 @@ theorem compile_eq_comp : ∀ p : Prog, compile p = comp none p := by
   | brk r ih => simp [compile, comp, none_shift, ih]
   | cont r ih => simp [compile, comp, none_shift, ih]
 
+/-! ### the element at the compiled position of a step statement; determinism of `slide` in the fuel -/
+
+theorem stepAt_next {p : Prog} {a : Addr} (hp : p ≠ .nil) : stepAt p (.next a) = stepAt (rest p) a := by
+  cases p <;> first | exact absurd rfl hp | simp [stepAt, rest]
+
+theorem comp_at_off : ∀ (a : Addr) (p : Prog) (lc : LC) (pre post : List Elem) (s : Step),
+    stepAt p a = some s → (pre ++ comp lc p ++ post)[pre.length + off p a]? = some (elemOf s) := by
+  intro a
+  induction a with
+  | here =>
+    intro p lc pre post s h
+    cases p <;> simp [stepAt] at h
+    subst h
+    simp [comp, off]
+  | next a ih =>
+    intro p lc pre post s h
+    by_cases hp : p = .nil
+    · subst hp; simp [stepAt] at h
+    · rw [stepAt_next hp] at h
+      obtain ⟨H, hH, hl⟩ := comp_split lc p hp
+      have := ih (rest p) (lc.shift (headSize p)) (pre ++ H) post s h
+      simp only [List.length_append, hl] at this
+      simp only [off, hH]
+      simpa [Nat.add_assoc] using this
+  | thenB a ih =>
+    intro p lc pre post s h
+    cases p <;> simp [stepAt] at h
+    rename_i c t e r
+    by_cases he : size e = 0
+    · have := ih t (lc.shift 1) (pre ++ [Elem.ifE c (size t + 1)]) (comp (lc.shift (1 + size t)) r ++ post) s h
+      simp only [List.length_append, List.length_cons, List.length_nil, Nat.zero_add] at this
+      simp only [comp, if_pos he, off]
+      simpa [Nat.add_assoc] using this
+    · have := ih t (lc.shift 1) (pre ++ [Elem.ifE c (size t + 2)])
+        (Elem.jump (size e + 1) false :: (comp (lc.shift (1 + size t + 1)) e ++ comp (lc.shift (1 + size t + 1 + size e)) r) ++ post) s h
+      simp only [List.length_append, List.length_cons, List.length_nil, Nat.zero_add] at this
+      simp only [comp, if_neg he, off]
+      simpa [Nat.add_assoc] using this
+  | elseB a ih =>
+    intro p lc pre post s h
+    cases p <;> simp [stepAt] at h
+    rename_i c t e r
+    by_cases he : size e = 0
+    · have e0 := size_eq_zero he
+      subst e0
+      cases a <;> simp [stepAt] at h
+    · have := ih e (lc.shift (1 + size t + 1)) (pre ++ Elem.ifE c (size t + 2) :: (comp (lc.shift 1) t ++ [Elem.jump (size e + 1) false]))
+        (comp (lc.shift (1 + size t + 1 + size e)) r ++ post) s h
+      have el : (pre ++ Elem.ifE c (size t + 2) :: (comp (lc.shift 1) t ++ [Elem.jump (size e + 1) false])).length
+          = pre.length + (1 + size t + 1) := by
+        simp [comp_length]; omega
+      rw [el] at this
+      simp only [comp, if_neg he, off]
+      simpa [Nat.add_assoc] using this
+  | body a ih =>
+    intro p lc pre post s h
+    cases p <;> simp [stepAt] at h
+    rename_i c b r
+    have := ih b (some ((size b : Int) + 1, -1)) (pre ++ [Elem.whileE c 1 (size b + 2)])
+      (Elem.jump (-1 * ((size b : Int) + 1)) false :: comp (lc.shift (1 + size b + 1)) r ++ post) s h
+    simp only [List.length_append, List.length_cons, List.length_nil, Nat.zero_add] at this
+    simp only [comp, off]
+    simpa [Nat.add_assoc] using this
+
+theorem slide_det : ∀ (f1 f2 : Nat) (code : List Elem) (st : SSt) (pos prev1 prev2 : Int) (r1 r2 : ARes),
+    absRes (slide f1 code st pos prev1) = some r1 → absRes (slide f2 code st pos prev2) = some r2 → r1 = r2 := by
+  intro f1
+  induction f1 with
+  | zero => intro f2 code st pos p1 p2 r1 r2 h1; simp [slide, absRes] at h1
+  | succ f1 ih =>
+    intro f2 code st pos p1 p2 r1 r2 h1 h2
+    cases f2 with
+    | zero => simp [slide, absRes] at h2
+    | succ f2 =>
+      simp only [slide] at h1 h2
+      by_cases hend : pos = (code.length : Int) ∨ pos < 0
+      · simp only [hend, if_true, absRes] at h1 h2
+        rw [← Option.some.inj h1, ← Option.some.inj h2]
+      · simp only [hend, if_false] at h1 h2
+        cases hs : sstep code st pos with
+        | next st' h' =>
+          simp only [hs] at h1 h2
+          exact ih f2 code st' h' pos pos r1 r2 h1 h2
+        | stop =>
+          simp only [hs, absRes] at h1 h2
+          rw [← Option.some.inj h1, ← Option.some.inj h2]
+        | err =>
+          simp only [hs, absRes] at h1 h2
+          rw [← Option.some.inj h1, ← Option.some.inj h2]
+
+/-- if the fuelled `slide` of the model did not run out of fuel, it returns what `Slides` says -/
+theorem slides_agree {code st pos r} {F : Nat} {prev : Int} (h : Slides code st pos r)
+    (hF : slide F code st pos prev ≠ .oof) : absRes (slide F code st pos prev) = some r := by
+  obtain ⟨f, hf⟩ := h
+  cases hr : slide F code st pos prev with
+  | oof => exact absurd hr hF
+  | «at» s h' =>
+    have := slide_det F f code st pos prev prev (.at s h') r (by rw [hr]; rfl) (hf prev)
+    rw [← this]; rfl
+  | fin s h' =>
+    have := slide_det F f code st pos prev prev (.fin s) r (by rw [hr]; rfl) (hf prev)
+    rw [← this]; rfl
+  | err =>
+    have := slide_det F f code st pos prev prev .err r (by rw [hr]; rfl) (hf prev)
+    rw [← this]; rfl
+
 end NemoVerif.V1Struct
